@@ -28,7 +28,7 @@ def shards(tier):
 
 
 def required_classes(tier):
-    out = ["hash-colliding-operands", "interleaved-configurations", "W4:GF(p)", "W4:GF(p^2)", "W4:GF(2^12)", "int-operand", "div-by-zero", "pow:>=750bit", "laws"]
+    out = ["derived-configurations", "hash-colliding-operands", "interleaved-configurations", "W4:GF(p)", "W4:GF(p^2)", "W4:GF(2^12)", "int-operand", "div-by-zero", "pow:>=750bit", "laws"]
     for impl in ("ref", "opt"):
         for d in (1, 2, 12):
             out.append("real:%s:deg%d" % (impl, d))
@@ -212,6 +212,7 @@ def run(rec):
                 rec.exhaustive_space("%s FQ2 over GF(%d), modulus x^2+%dx+%d: all elements, all ordered pairs" % (impl, p, mc[1], mc[0]), len(els) ** 2)
     interleaved_configurations(rec, rng, quick)
     hash_colliding_operands(rec, rng, quick)
+    derived_configurations(rec, rng, quick)
     # degree-12 extensions of GF(2), GF(3), GF(5), GF(7)
     mrng = random.Random(rec.seed * 7919 + 12)
     for p in (2, 3, 5, 7):
@@ -249,6 +250,61 @@ def run(rec):
                     rec.count_distinct(n)
                     rec.exhaustive_space("opt FQ12 over GF(3), modulus %r: inverse of every non-zero element (inv monitor)" % (mc,), n)
                 exercise(rec, (impl, "GF(%d^12)#%d" % (p, mi), 12), cls, F, rng, quick, heavy=True)
+
+
+def derived_configurations(rec, rng, quick):
+    """Classes derived from a concrete field class that has ALREADY been used, overriding only its modulus coefficients (or only
+    its prime): per-class state set up by the parent's first instance must not leak into the child."""
+    import py_ecc.fields as pf
+    from ..model.gf import is_irreducible
+    for impl in ("opt", "ref"):
+        pre = "optimized_" if impl == "opt" else ""
+        parents = []
+        a7, F7 = G.adhoc_class(impl, 7, (1, 0), tag="_par")
+        parents.append((a7, 7))
+        parents.append((getattr(pf, pre + "bn128_FQ2"), None))
+        parents.append((getattr(pf, pre + "bls12_381_FQ2"), None))
+        for parent, _ in parents:
+            p = parent.field_modulus
+            x0 = parent([rng.randrange(p), rng.randrange(1, p)])
+            call(lambda: x0 * x0)                                   # the parent is used first
+            for mc in ((2, 0), (3, 0), (5, 0), (6, 0), (1, 1), (2, 1), (3, 1)):
+                if mc == tuple(int(getattr(c, "n", c)) for c in parent.FQ2_MODULUS_COEFFS) or not is_irreducible(mc, p):
+                    continue
+                cls, F = G.derived_class(parent, mc=mc)
+                rec.case("derived-configurations", None, nontrivial=False)
+                xs = [G.make(cls, F.rand(rng)) for _ in range(3)] + [cls([0, 1]), cls([1, 0])]
+                for a in xs[:4]:
+                    for b in xs[:3]:
+                        call(lambda: a * b)
+                        call(lambda: a / b)
+                    call(a.inv)
+                    call(lambda: a ** 5)
+                    call(lambda: a * a.inv())
+                call(lambda: x0 * x0)                               # ... and the parent afterwards
+                break
+        # a child that overrides only the prime (x^2 + 1 stays irreducible for p = 3 mod 4)
+        for q in (11, 19, 23):
+            cls, F = G.derived_class(a7, p=q)
+            rec.case("derived-configurations", None, nontrivial=False)
+            a, b = G.make(cls, F.rand(rng)), G.make(cls, (3, 4))
+            call(lambda: a * b)
+            call(lambda: a / b)
+            call(b.inv)
+        # degree 12 over GF(2) and GF(3): child with another irreducible modulus
+        m12 = random.Random(99)
+        for p in (2, 3):
+            par, Fp_ = G.adhoc_class(impl, p, find_irreducible(p, 12, m12), tag="_par12")
+            e0 = G.make(par, Fp_.rand(rng))
+            call(lambda: e0 * e0)
+            cls, F = G.derived_class(par, mc=find_irreducible(p, 12, m12))
+            rec.case("derived-configurations", None, nontrivial=False)
+            xs = [G.make(cls, F.rand(rng)) for _ in range(3)]
+            for a in xs:
+                call(lambda: a * xs[0])
+                if any(int(getattr(c, "n", c)) for c in a.coeffs):
+                    call(a.inv)
+                call(lambda: a ** 7)
 
 
 def hash_colliding_operands(rec, rng, quick):
